@@ -195,7 +195,6 @@ static int init_element(struct element *e, const cJSON *request, struct peer *p,
 
 	if (fill_access(e, request, p, access, response) < 0) {
 		log_peer_err(p, "could not fill access information\n");
-		*response = create_error_response_from_request(p, request, INTERNAL_ERROR, "reason", "could not fill access information");
 		goto fill_access_failed;
 	}
 
